@@ -10,9 +10,10 @@
      storage.rs    only the fact that read_node_data refuses a slot that is not Active
    and of std::collections::BinaryHeap (push = sift_up, pop = swap-in last + sift_down_to_bottom +
    sift_up), because the order in which equal distances leave the heaps decides which neighbours are
-   linked and reported.  The model is faithful to the code AS IT IS (a deleted slot cannot be read, so a
-   deleted node is a dead end with distance +inf whose row id is reported as 0; vacuum_batch cannot read
-   the node it is supposed to unlink; insert fails half way when it meets such a node).
+   linked and reported.  The model is faithful to the code AS IT IS (tree at /repo 4d4f2e6: a deleted slot
+   cannot be read, so a deleted node is a dead end with distance +inf, dropped from the results since
+   68d5b43; vacuum_batch cannot read the node it is supposed to unlink; insert fails half way when it
+   meets such a node).  Slot offsets are correct since 672ee79, so pages need not be modelled.
 
    Node ids are allocation indices (0,1,2,..; pages/slots are append-only so this is the order of
    (page_no, slot)); NodeId::none() is -1.  Distances are exact because all vectors are integer valued:
@@ -423,6 +424,11 @@ Inductive sres := SOk (l : list (Z * dist)) | SErr | SAbort | SFuel.
 Definition row_of (s : st) (id : Z) : Z :=
   match read_node s id with Some nd => n_row nd | None => 0 end.
 
+(* results.filter_map(|c| { let node = self.read_node(c.node_id).ok()?; Some(..) }): a candidate whose
+   node cannot be read (deleted slot) is dropped AFTER the truncation to k *)
+Definition result_of (s : st) (c : cand) : list (Z * dist) :=
+  match read_node s (cid c) with Some nd => [(n_row nd, cd c)] | None => [] end.
+
 Definition search (p : params) (getv : Z -> option (list Z)) (s : st) (q : list Z) (k ef : Z) : sres :=
   if negb (Z.of_nat (length q) =? dims p) then SErr else
   match entry s with
@@ -433,7 +439,7 @@ Definition search (p : params) (getv : Z -> option (list Z)) (s : st) (q : list 
       let '(cur, d) := descend (Z.to_nat (maxlvl s)) (maxlvl s) s cdf ep (cdf ep) in
       match beam (beam_fuel s) (gn_at s 0) cdf ef (C cur d) with
       | None => SFuel
-      | Some rs => SOk (map (fun c => (row_of s (cid c), cd c)) (finalize k rs))
+      | Some rs => SOk (flat_map (result_of s) (finalize k rs))
       end
   end.
 
@@ -508,20 +514,37 @@ Definition entry_dead (s : st) : bool :=
   end.
 Definition any_inactive (s : st) : bool := existsb (fun n => negb (n_active n)) (nodes s).
 
-(* Page bytes in use: 64-byte page header, and per allocated node a 4-byte slot entry plus a slot of
-   HnswNode::max_serialized_size(level) = 10 + 32*6 + level*(1 + 16*6) bytes.  The slot directory keeps
-   offsets in 13 bits although pages have 16384 bytes: once more than 8192 bytes of the first node page
-   are in use, slots alias each other / the slot directory (finding F-C25-3) and this model, which has
-   no bytes, no longer describes the implementation. *)
-Definition node_bytes (lvl : Z) : Z := 202 + 97 * lvl.
-Definition page_use (s : st) : Z :=
-  fold_right (fun nd acc => node_bytes (n_level nd) + 4 + acc) 64 (nodes s).
-Definition HALF_PAGE : Z := 8192.
+(* an insert of a vector of the right dimension that returns Err: it has allocated its node (readable,
+   in the row-id map) and possibly written some back-links before giving up *)
+Definition ins_failed (p : params) (w : world) (o : op) : bool :=
+  match o with
+  | Ins row v lvl blind =>
+      (Z.of_nat (length v) =? dims p) &&
+      match insert p (if blind then (fun _ => None) else getv_of (tbl w)) (ix w) row v lvl with
+      | IErr _ => true | _ => false end
+  | _ => false
+  end.
 
-(* 0: no node has been deleted so far and the first page is at most half full;
+(* no insert of the history has failed half way *)
+Fixpoint clean (p : params) (w : world) (ops : list op) : bool :=
+  match ops with
+  | [] => true
+  | o :: t => negb (ins_failed p w o) && clean p (fst (step p w o)) t
+  end.
+
+(* a neighbour list that has reached its fixed capacity (32 at level 0, 16 above): add_neighbor_at_level
+   silently drops every further back-link to this node *)
+Definition node_full (nd : node) : bool :=
+  match n_nbrs nd with
+  | [] => false
+  | l0 :: hs => (MAX_L0_NEIGHBORS <=? Z.of_nat (length l0)) ||
+                existsb (fun l => MAX_LEVEL_NEIGHBORS <=? Z.of_nat (length l)) hs
+  end.
+Definition any_full (s : st) : bool := existsb node_full (nodes s).
+
+(* 0: no node has been deleted so far and no neighbour list is full;
    1: some node is deleted (slot not Active) but the entry point is readable;
    2: the entry point itself is deleted;
-   3: more than half of the first node page is in use (outside the model's domain) *)
+   3: no node is deleted but some neighbour list is full (back-links are being dropped) *)
 Definition class_of (s : st) : Z :=
-  if HALF_PAGE <? page_use s then 3
-  else if entry_dead s then 2 else if any_inactive s then 1 else 0.
+  if entry_dead s then 2 else if any_inactive s then 1 else if any_full s then 3 else 0.
